@@ -11,7 +11,7 @@ SPEC_DRIVER = "drivers/SpecC19.lean"
 DRIVER_MODULES = ["BioCantor.Driver.Main", "BioCantor.Driver.Validate"]
 SPEC_DRIVER_MODULES = ["BioCantor.Driver.Main", "BioCantor.Driver.SpecValidate"]
 ERR_CLASS = True          # the model must raise the SAME documented class as the constructor (and `err!` only where it does)
-MODEL_OPS = set(V.MK_OPS)  # the grid lines (ctor / call) are judged by the spec driver only
+MODEL_OPS = set(V.MODEL_OPS)  # the grid lines (ctor / call) are judged by the spec driver only
 RULE = ("deterministic grid: (A) every constructor x every applicable corruption kind of every argument, on well-formed "
         "bases drawn from VERIF_SEED; (B) every public property / method (found by introspection) x boundary argument "
         "tuples derived from the signature; plus the plain-data form of the grid points of the Lean-modelled constructors "
@@ -128,6 +128,51 @@ def _small_scopes(run):
     for p, q, r in itertools.product(tri, repeat=3):
         if thorough or (p[0] + 2 * q[0] + r[1]) % 4 == 0:
             yield f"mkvarcoll 3 {p[0]} {p[1]} {q[0]} {q[1]} {r[0]} {r[1]}"
+    # VariantInterval with its ALT sequence
+    for a in range(-1, 4):
+        for b in range(-1, 4):
+            for alt in ("", "A", "acgn", "AX", "x", "N-", "ATGCN"):
+                yield f"mkvar {a} {b} ~{alt}"
+    # FeatureInterval
+    quals = ("_", "L0", "L1", "D 0", "D 2 1 1", "D 2 1 0", "D 1 0")
+    for ss in cl:
+        for es in cl:
+            for q in quals:
+                yield f"mkfeat {'-' if (len(ss) + len(es)) % 2 else '+'} {_il(ss)} {_il(es)} {q}"
+    # GeneInterval / FeatureIntervalCollection over a pool of children (start end guid primary)
+    pool = [f"{a} {b} {g} {p}" for (a, b) in ((0, 3), (2, 5), (4, 4), (1, 9)) for g in (0, 1) for p in (0, 1)]
+    for op in ("mkgene", "mkfcoll"):
+        for q in ("_", "L1", "D 1 0"):
+            yield f"{op} 0 {q}"
+            for c in pool:
+                yield f"{op} 1 {c} {q}"
+        for c1 in pool:
+            for c2 in pool:
+                yield f"{op} 2 {c1} {c2} _"
+        for i, c1 in enumerate(pool):
+            for j, c2 in enumerate(pool):
+                for k, c3 in enumerate(pool):
+                    if (i + 3 * j + 5 * k) % (7 if thorough else 29) == 0:
+                        yield f"{op} 3 {c1} {c2} {c3.replace(' 0 ', ' 2 ', 1) if k % 2 else c3} _"
+    # AnnotationCollection: bounds given / inferred, duplicate children
+    kidpool = ("0 3 0", "2 7 1", "2 7 0", "5 5 2")
+    kidlists = [()] + [(k,) for k in kidpool] + [(k1, k2) for k1 in kidpool for k2 in kidpool]
+    for a in ("_", "-1", "0", "5", "9"):
+        for b in ("_", "-1", "0", "5", "9"):
+            for kl in kidlists:
+                yield ("mkannot " + a + " " + b + " " + " ".join([str(len(kl))] + list(kl))).rstrip()
+    # Codon
+    for d in _lists("AtX-N", 4):
+        yield f"mkcodon ~{''.join(d)}"
+    for d in ("AUG", "ryk", "atgc", "A G", "ÄTG"):
+        if " " not in d and d.isascii():
+            yield f"mkcodon ~{d}"
+    # Enum lookups
+    for which in ("strand", "frame", "phase"):
+        for v in range(-3, 4):
+            yield f"fromint {which} {v}"
+    for d in _lists("+-.x", 2):
+        yield f"fromsym ~{''.join(d)}"
     # scan_windows
     locs = ("S + 0 6", "S - 2 7", "S . 0 4", "S + 3 3", "C + 2 0 3 5 8", "C - 3 0 2 2 4 7 9", "C + 2 5 5 7 7", "C . 2 0 2 4 6", "E",
             "C + 2 0 5 3 8")
